@@ -71,6 +71,10 @@ class ServeManifest(RequestHandlerBase):
     def get(self, mode: str, stream: str, manifest: str) -> flask.Response:
         logging.debug('ServeManifest: mode=%s stream=%s manifest=%s', mode, stream, manifest)
         mft = current_manifest
+        if current_stream.timing_reference is None:
+            logging.warning('stream.timing_reference has not been configured')
+            return flask.make_response(
+                'stream.timing_reference has not been configured', 404)
         try:
             options = self.calculate_options(
                 mode=mode,
@@ -158,6 +162,17 @@ class ServeMultiPeriodManifest(RequestHandlerBase):
         except ValueError as e:
             logging.info('Invalid CGI parameters: %s', e)
             return flask.make_response('Invalid CGI parameters', 400)
+        if not current_mps.periods:
+            return flask.make_response(
+                f'{html.escape(mps_name)} does not have any periods', 404)
+        for period in current_mps.periods:
+            if period.stream is None or period.stream.timing_reference is None:
+                logging.warning(
+                    'Period %s: timing_reference has not been configured',
+                    period.pid)
+                return flask.make_response(
+                    f'timing_reference of period {html.escape(period.pid)} ' +
+                    'has not been configured', 404)
         dash = ManifestContext(
             manifest=current_manifest, options=options, stream=None,
             multi_period=current_mps)
